@@ -21,20 +21,24 @@ CFG = {
                   "(changed cell = origin+offset, inside the window, every ancestor and the screen; else unchanged), "
                   "drawops_clip and its instances for Fill/Clear/Print/PrintTruncate/Println/Wrap, fill_covers, "
                   "screen_index_ok (no index panic), print_is_layout / println_is_layout / printTruncate_is_layout / "
-                  "wrap_is_layout (the SetCell calls are the reading-order layout of the spec), print_order / wrap_order "
-                  "(strictly increasing reading order), layout_one_call_per_cluster, new_region; composed with the C01 renderer and the "
+                  "wrap_is_layout (the SetCell calls are the reading-order layout of the spec, which since the F111 repair starts a new row for a cluster that does not fit in the rest of the row and skips one wider than the window), "
+                  "print_order / wrap_order (strictly increasing reading order), layout_one_call_per_cluster, new_region; print_fits / wrap_fits / println_fits / printTruncate_fits (every call has col + width <= window width), "
+                  "cluster_extent_clip / text_extent_clip (on a right-nested chain — everything vx.Window() and New build: new_rightNested — every cluster written into the clip region occupies only columns of the clip region: "
+                  "containment at the property's observation point without the F111 exclusion); composed with the C01 renderer and the "
                   "reference terminal: app_history_displays, app_screen_is_last_write (Props/C01App: what the terminal shows after a Render is "
                   "the fold of the Spec.Window writes that hit each cell); showCursor_position / showCursor_in_screen (Window.ShowCursor = origin + "
                   "offset, unclipped); clear_resets_all_placements / render_after_clear_deletes_all (Clear on any window empties the next-frame "
                   "placement list, joined with C20's placement model).",
-    "level_note": "Model tied to the source by Gen/WindowFacts.lean (guards, clamp switch, tab count, re-measure sites; "
-                  "theorems facts_* fail to compile when window.go/screen.go/character.go change shape) and by the "
+    "level_note": "Model tied to the source by Gen/WindowFacts.lean (guards, clamp switch, tab count, re-measure sites, pen conditions, and the full statement skeletons of ShowCursor/Fill/Origin/Clear/Print/"
+                  "PrintTruncate/Println/Wrap with locals under role names: facts_helper_skeletons, helpers_fully_recognised; "
+                  "theorems facts_* fail to compile when window.go/screen.go/character.go change shape, renaming a local does not) and by the "
                   "correspondence run through real Window values on a real Vaxis (fake console), now including Window.ShowCursor. "
                   "The oracle also observes the text helpers through the reference terminal's reading (continuation columns of wide "
-                  "clusters): known finding F111 (Print/Wrap put a cluster wider than the rest of the window's row on its last column; "
-                  "it is displayed beyond the window) is recorded with a witness (Witness/F111.lean), not repaired. Validated by "
-                  "correspondence only: that the Lean transcription of the loops equals the Go loops. The body of ShowCursor is "
-                  "hand-transcribed (cursorPos) and tied by correspondence only.",
+                  "clusters): F111 (Print/Wrap put a cluster wider than the rest of the window's row on its last column; it was displayed beyond the window) is FIXED in /repo 05ee32f "
+                  "(Witness/F111.lean keeps the old loop and shows both behaviours). Known findings: F111b (a struct-literal child reaching beyond its parent's right edge accepts a wide cluster on the parent's last column — "
+                  "hypothesis rightNested of text_extent_clip, shown necessary; left to the application as window.go documents) and F111c (Wrap's line segmentation can end inside a grapheme cluster: a flag that begins a later "
+                  "Segment, space + combining mark; new oracle 'clusters of the line segments = clusters of the Segment text'). Validated by correspondence only: that the Lean transcription of the loops equals the Go loops "
+                  "beyond their pinned statement structure. SetCell/Fill of a wide cell on a window's last column is outside the spill oracle.",
     "technique": "Lean 4 proof (induction on the parent chain / on the text) + extractor + differential correspondence",
     "timeout": 900,
 }
